@@ -8,8 +8,18 @@
      slice files r           PathNode.get_part applied to the file the range names
      find_matches            PieceNode._find_matches: (success, copypath calls made)
      match_v1                Metadata._match_v1 with its `copied` shortcut
-   The v2 route (Metadata._match_v2: one HasherV2 root comparison per candidate) has no Coq model;
-   it is covered by the end-to-end search only. *)
+   The second part of the file (below the line "how the file list is read") states, for Model/RebuildMeta.v:
+     extract meta            Metadata.extract on the decoded metafile (a `value` of Model/Bencode.v): None = Metadata(path)
+                             raises; Some x = name, meta version, pieces, is_file and the entries of Metadata.files in order
+                             (e_path / e_full = pathlib parts of entry["path"] / entry["full"], e_filename, e_length, e_root)
+     tree_leaves tree        SPECIFICATION: the leaves of a BEP 52 file tree in tree order, each with the keys leading to it
+     entry_at prefix e pl    entry e stands for leaf pl below the directory prefix: full = prefix ++ keys, path = parent of
+                             full, filename = last key, length / root = those of the leaf dictionary
+     match_v2 H256 B pl fm entries   Metadata._match_v2: (copypath calls as (candidate location, "/"-joined full), count);
+                             the HasherV2 root of a candidate is the model of Model/HasherV2.v, whose root is bep52_root (C02)
+     verified H256 B e c     candidate c = (location, content) has the recorded length of e and, if it has content, the
+                             BEP 52 pieces root of its content is the recorded root
+   tied to the real Metadata(path) and Metadata._match_v2 by harness/props/rebuild_common.py extract_tie / match_v2_tie. *)
 From TF Require Import Lib.Base Lib.Chunks Model.Rebuild Proofs.MapPieces Proofs.RebuildMatch.
 From Coq Require String.
 
@@ -137,3 +147,83 @@ Theorem C13_skipped_piece_has_copy : forall (H1 : bytes -> bytes) (fm : filemap)
     In (pn_full pn) copied_i /\ In (l, pn_full pn) trace_i /\ trace = trace_i ++ more.
 Proof. exact match_v1_skipped_has_copy. Qed.
 Print Assumptions C13_skipped_piece_has_copy.
+
+(* ---------------------------------------------------------------------------------------------- *)
+(* how the file list is read from the metafile, and the v2 route                                  *)
+(* ---------------------------------------------------------------------------------------------- *)
+From TF Require Import Model.Bencode Spec.Bep52 Model.RebuildMeta Proofs.RebuildMetaProofs.
+
+(* a file tree is read leaf by leaf in tree order: the i-th entry is the i-th leaf, at
+   <start directory>/<keys from the root to the leaf>, with the leaf's recorded length and root; no leaf is left
+   out, none is listed twice, and no leaf inherits a directory from an earlier sibling *)
+Theorem C13_file_tree_read_exactly : forall (tree : dict) (partials : list bytes) (es : list entry),
+  parse_tree partials tree = Some es ->
+  Forall2 (entry_at partials) es (tree_leaves tree) /\
+  map e_full es = map (fun pl => partials ++ fst pl) (tree_leaves tree).
+Proof. exact (fun tree partials es H => conj (parse_tree_entries_exact tree partials es H) (parse_tree_paths_exact tree partials es H)). Qed.
+Print Assumptions C13_file_tree_read_exactly.
+
+(* ... hence for every accepted v2 / hybrid metafile that is not in the single-file form: the files rebuild looks
+   for are exactly the leaves of info["file tree"], each to be placed at name/<keys> *)
+Theorem C13_v2_file_list_is_the_tree : forall (meta : value) (info tree : dict) (x : extracted),
+  info_of meta info -> extract meta = Some x -> x_is_v2 x = true ->
+  lookup rk_file_tree info = Some (BDict tree) -> single_leaf (x_name x) tree = None ->
+  Forall2 (entry_at [x_name x]) (x_files x) (tree_leaves tree) /\
+  map e_full (x_files x) = map (fun pl => x_name x :: fst pl) (tree_leaves tree).
+Proof. exact extract_v2_paths_exact. Qed.
+Print Assumptions C13_v2_file_list_is_the_tree.
+
+(* a v1 metafile with a file list: one entry per listed file, in list order, at name/<path elements> with the
+   recorded length; only "path" and "length" of the entry's dictionary are read *)
+Theorem C13_v1_file_list_is_the_list : forall (meta : value) (info : dict) (items : list value) (x : extracted),
+  info_of meta info -> extract meta = Some x -> x_is_v2 x = false ->
+  lookup rk_length info = None -> lookup rk_files info = Some (BList items) ->
+  Forall2 (v1_item_read (x_name x)) (x_files x) items.
+Proof. exact extract_v1_paths_exact. Qed.
+Print Assumptions C13_v1_file_list_is_the_list.
+
+(* ... and every well-formed list is accepted and read as (name :: path_i, length_i), whatever further keys follow *)
+Theorem C13_v1_file_list_accepted : forall (name : bytes) (extra : list bytes * Z -> dict) (pes : list (list bytes * Z)),
+  Forall (fun pe => fst pe <> [] /\ Forall safe (fst pe)) pes ->
+  v1_entries name (map (fun pe => v1_item (extra pe) pe) pes) =
+  Some (map (fun pe => mk_entry (removelast (name :: fst pe)) (name :: fst pe) (last (fst pe) []) (snd pe) None) pes).
+Proof. exact v1_entries_accepts. Qed.
+Print Assumptions C13_v1_file_list_accepted.
+
+(* the v2 route, completeness: if among the candidates indexed under the entry's file name one verifies, the entry is
+   copied to the path the metafile assigns to it -- the first verifying candidate in enumeration order, whatever
+   stands before it (other sizes, same size and other bytes, longer files that begin with the genuine bytes) and
+   whatever the other entries are *)
+Theorem C13_v2_complete : forall (H256 : bytes -> bytes) B, 0 < B -> forall k pl, pl = B * 2 ^ k ->
+  forall (fm : filemap) (entries : list entry) (e : entry) (cands : list candidate) (c : candidate),
+  In e entries -> fm_lookup fm (text (e_filename e)) = Some cands -> In c cands -> verified H256 B e c ->
+  exists pre l content post,
+    cands = pre ++ (l, content) :: post /\ Forall (fun c' => ~ verified H256 B e c') pre /\
+    verified H256 B e (l, content) /\
+    v2_entry H256 B pl fm e = [(l, full_text e)] /\
+    In (l, full_text e) (fst (match_v2 H256 B pl fm entries)).
+Proof. exact match_v2_complete. Qed.
+Print Assumptions C13_v2_complete.
+
+(* an intact copy (the bytes whose length and BEP 52 root the metafile records) verifies *)
+Theorem C13_v2_intact_copy_verifies : forall (H256 : bytes -> bytes) B (e : entry) (data : bytes) (l : loc),
+  data <> [] -> e_length e = Z.of_nat (length data) -> e_root e = Some (BStr (bep52_root H256 B data)) ->
+  verified H256 B e (l, data).
+Proof. exact intact_copy_verifies. Qed.
+Print Assumptions C13_v2_intact_copy_verifies.
+
+(* entries are treated independently: nothing is carried from one entry to the next *)
+Theorem C13_v2_entries_independent : forall (H256 : bytes -> bytes) B pl (fm : filemap) (es1 es2 : list entry),
+  match_v2 H256 B pl fm (es1 ++ es2) =
+  (fst (match_v2 H256 B pl fm es1) ++ fst (match_v2 H256 B pl fm es2),
+   snd (match_v2 H256 B pl fm es1) + snd (match_v2 H256 B pl fm es2)).
+Proof. exact match_v2_independent. Qed.
+Print Assumptions C13_v2_entries_independent.
+
+(* zero-length files: the v2 route never places them (HasherV2 reports the empty list as the root of an empty file,
+   which equals neither "no root" nor any byte string) -- the observation the end-to-end search records *)
+Theorem C13_v2_empty_file_not_placed : forall (H256 : bytes -> bytes) B, 0 < B -> forall k pl, pl = B * 2 ^ k ->
+  forall (fm : filemap) (e : entry),
+  e_length e = 0%Z -> e_root e <> Some (BList []) -> v2_entry H256 B pl fm e = [].
+Proof. exact match_v2_empty_file. Qed.
+Print Assumptions C13_v2_empty_file_not_placed.
